@@ -55,7 +55,7 @@ class Server:
     """a CONFORMING server: in particular the I/O channel and the user channel are two channels (io != uid)"""
     def __init__(self, sel=1, uid=1004, io=1003, version=0x00080004, requested=True, early=None, node=0x79f3, tag=1,
                  blocks="csn", unknown=(), lic=("valid", 3, b""), lic_sec=0x0080, rounds=(dict(),), extras=(), net_channels=(),
-                 neg_flags=0, src_ref=0):
+                 neg_flags=0, src_ref=0, ber_form=None):
         assert io != uid, "a conforming server assigns distinct ids to distinct channels"
         self.sel, self.uid, self.io, self.version = sel, uid, io, version
         self.requested, self.early, self.node, self.tag = requested, early, node, tag
@@ -68,12 +68,13 @@ class Server:
         self.extras = set(extras)        # positions (reply indices of the session phase) after which a set-error-info is inserted
         self.net_channels = tuple(net_channels)
         self.neg_flags, self.src_ref = neg_flags, src_ref
+        self.ber_form = ber_form         # None = minimal (DER-like) lengths; k = every length of the connect response in the k-octet long form (BER allows it)
 
     def in_coq_spec(self):
         """the part of the server space coq/RefSequence.v encodes (the theorems' conforming server)"""
         return (self.blocks == "csn" and not self.unknown and self.node == 0x79f3 and self.tag == 1 and not self.extras
                 and not self.net_channels and (self.lic[0] == "new" or self.lic[2] == b"") and self.sel in (1, 2)
-                and all(r.get("session", 0) == 0 for r in self.rounds))
+                and all(r.get("session", 0) == 0 for r in self.rounds) and self.ber_form is None)
 
     # the replies, in order; each is (kind, raw|tls, bytes)
     def gcc(self):
@@ -95,7 +96,7 @@ class Server:
     def connect_replies(self, order):
         chans = [self.io, self.uid] if order == "g" else [self.uid, self.io]
         return [("cc", tpkt(x224_cc(neg_rsp(self.sel, flags=self.neg_flags), src=self.src_ref))),
-                ("mcs", tpkt(x224_data(connect_response(self.gcc())))),
+                ("mcs", tpkt(x224_data(connect_response(self.gcc(), form=self.ber_form)))),
                 ("attach", attach_frame(uid=self.uid)),
                 ("join", join_frame(uid=self.uid, chan=chans[0])),
                 ("join", join_frame(uid=self.uid, chan=chans[1])),
@@ -630,6 +631,9 @@ def gen_cases(tier, rng):
     for frag in ("whole", "header", "two", "random", "dribble"):
         add(base, Server(uid=1005, io=1004, rounds=[dict(), dict()]), "frag:" + frag, frag=frag)
     # configurations
+    # T.125 connect PDUs are BER: the server may write its lengths in a non-minimal long form
+    for form in (2, 3, 4):
+        add(base, Server(uid=1006, io=1003, ber_form=form), "ber-long-form")
     for lay in LAYOUTS: add(Config(layout=lay, w=rng.choice(V16), h=rng.choice(V16), name=rstr(rng)), Server(), "layout")
     for (ram, auto, blank, hm) in [(1, 0, 0, 0), (0, 1, 0, 0), (0, 0, 1, 0), (0, 0, 0, 1), (1, 1, 1, 1)]:
         add(Config(ram=bool(ram), auto=bool(auto), blank=bool(blank), hash_mode=bool(hm), dom="D", user="u", pw="p"), Server(), "modes")
